@@ -35,11 +35,15 @@ def main(tag):
         demo = meta["demo"].replace("&amp;", "&")
         # the demo line is free text: pick out the `cp SEED/x dest` copies and the `go test …` command
         copies = re.findall(r"cp\s+(SEED/\S+)\s+(\S+)", demo)
+        msh = re.search(r"\bsh\s+(SEED/\S+\.sh)", demo)
         m = re.search(r"go test[^;&(\n`]*", demo)
-        if not m:
-            raise RuntimeError("no go test command in demo: " + demo)
-        gotest = re.sub(r"^go test ", "go test -trimpath ", m.group(0).strip())
-        cmd = " && ".join(["cp %s %s" % c for c in copies] + [gotest])
+        if msh:
+            cmd = "sh " + msh.group(1)
+        elif m:
+            gotest = re.sub(r"^go test ", "go test -trimpath ", m.group(0).strip())
+            cmd = " && ".join(["cp %s %s" % c for c in copies] + [gotest])
+        else:
+            raise RuntimeError("no runnable command in demo: " + demo)
         rc0, o0 = sh(cmd, wt, 2400)
         out["steps"]["demo_unchanged_rc"] = rc0
         out["demo_unchanged_tail"] = o0[-600:]
